@@ -207,6 +207,17 @@ func genLintFile(g *G, o lintOpts) []byte {
 				sname = "Signal0"
 			case use("boolprefix"):
 				ln = 1
+				if g.R.Bool() {
+					// near miss of the value-description exemption: the same signal name is described in another
+					// message (an earlier or a later one), which does not exempt this one
+					other := 100 + g.R.Intn(nMsg)
+					if other == id {
+						other = 100 + (m+1)%nMsg
+					}
+					if other != id {
+						vals = append(vals, fmt.Sprintf("VAL_ %d %s 0 \"Off\" 1 \"On\" ;", other, sname))
+					}
+				}
 			case use("si-unit"):
 				unit = g.R.Pick("kph", "mps", "meters/sec", "meters", "deg", "degrees", "radians")
 			case use("unit-suffix"):
